@@ -102,7 +102,7 @@ def PairClean (m : Mode) (op : Op) (a b : Atom) : Prop :=
   CmpFind.trigTol false op a b = false ∧ CmpFind.trigPromotion false a b = false ∧
   CmpFind.trigLenient m op a b = false ∧ CmpFind.trigUntyped op a b = false ∧
   pairSpec m op a b ≠ .error .unsupported ∧ pairGeneral m op a b ≠ .error .unsupported ∧
-  ymdOrd op a b = false ∧ CmpFind.dtConsistent a b = true
+  ymdOrd op a b = false ∧ CmpFind.atomTzOK a = true ∧ CmpFind.atomTzOK b = true
 
 /-- PARTIAL (findings F07, F07-promotion, F07-lenient, F07-untyped).  One pair of a general
 comparison, any two atoms of the 17 types (untypedAtomic included), any operator: outside the four
@@ -114,7 +114,7 @@ incomparable types.  The full statement is false: see the `*_witness` theorems b
 theorem general_pair_conforms_partial (m : Mode) (op : Op) (a b : Atom) (h : PairClean m op a b) :
     pairGeneral m op a b = pairSpec m op a b :=
   pairGeneral_conforms m op a b h.1 h.2.1 h.2.2.1 h.2.2.2.1 h.2.2.2.2.1 h.2.2.2.2.2.1 h.2.2.2.2.2.2.1
-    h.2.2.2.2.2.2.2
+    (dtConsistent_of_tzOK a b h.2.2.2.2.2.2.2.1 h.2.2.2.2.2.2.2.2)
 
 /-- the hypothesis is satisfiable on non-trivial pairs: untyped "10" < 9 (cast to double), untyped
 " true " = true() (cast to boolean), "abc" < anyURI "abd", hexBinary in 3.1 -/
@@ -299,9 +299,9 @@ theorem value_cmp_conforms_partial (m : Mode) (op : Op) (a b : Atom)
     (hua : isUA a = false) (hub : isUA b = false)
     (hTol : trigTol true op a b = false) (hProm : trigPromotion true a b = false)
     (hOva : ∀ e, getDouble a ≠ .error e) (hOvb : ∀ e, getDouble b ≠ .error e)
-    (hY : ymdOrd op a b = false) (hDT : dtConsistent a b = true) :
+    (hY : ymdOrd op a b = false) (hTa : atomTzOK a = true) (hTb : atomTzOK b = true) :
     valuePair m op a b = valueOp (binOrdered m) op a b :=
-  valuePair_conforms m op a b hua hub hTol hProm hOva hOvb hY hDT
+  valuePair_conforms m op a b hua hub hTol hProm hOva hOvb hY (dtConsistent_of_tzOK a b hTa hTb)
 
 /-- the hypotheses are satisfiable on non-trivial pairs: 2^53+1 against a double, a decimal against a
 float, two different close-but-not-too-close doubles -/
@@ -315,14 +315,14 @@ theorem incomparable_XPTY0004 (m : Mode) (op : Op) (a b : Atom)
     (hua : isUA a = false) (hub : isUA b = false)
     (hTol : trigTol true op a b = false) (hProm : trigPromotion true a b = false)
     (hOva : ∀ e, getDouble a ≠ .error e) (hOvb : ∀ e, getDouble b ≠ .error e)
-    (hY : ymdOrd op a b = false) (hDT : dtConsistent a b = true) :
+    (hY : ymdOrd op a b = false) (hTa : atomTzOK a = true) (hTb : atomTzOK b = true) :
     valuePair m op a b = .error .XPTY0004 ↔ valueOp (binOrdered m) op a b = .error .XPTY0004 := by
-  rw [valuePair_conforms m op a b hua hub hTol hProm hOva hOvb hY hDT]
+  rw [valuePair_conforms m op a b hua hub hTol hProm hOva hOvb hY (dtConsistent_of_tzOK a b hTa hTb)]
 
 /-- one representative atom per type -/
 def reps : List Atom :=
   [.int 1, .dec (3 / 2), .dbl (.fin 2), .flt (.fin 2), .str [97], .bool true, .uri [97], .qn [] [] [97],
-   .date ⟨2000, 5, none⟩, .dtm ⟨2000, 5, some 60⟩, .time ⟨2000, 5, none⟩, .dur 1 1, .ymd 1, .dtd 1, .hex [65], .b64 [65]]
+   .date ⟨5, none⟩, .dtm ⟨5, some 60⟩, .time ⟨5, none⟩, .dur 1 1, .ymd 1, .dtd 1, .hex [65], .b64 [65]]
 
 /-- INCOMPARABLE ⇒ XPTY0004, as a kernel-evaluated table: over the 16 × 16 ordered pairs of typed
 representatives × 6 operators × 3 modes, the code raises XPTY0004 exactly where the specification's
@@ -350,7 +350,7 @@ theorem value_seq_conforms_partial (m : Mode) (op : Op) (L Rr : List Item) (hm :
       let a := castUAStr (atomize m x); let b := castUAStr (atomize m y)
       trigTol true op a b = false ∧ trigPromotion true a b = false ∧
       (∀ e, getDouble a ≠ .error e) ∧ (∀ e, getDouble b ≠ .error e) ∧ ymdOrd op a b = false ∧
-      dtConsistent a b = true ∧ valueOp (binOrdered m) op a b ≠ .error .unsupported) :
+      atomTzOK a = true ∧ atomTzOK b = true ∧ valueOp (binOrdered m) op a b ≠ .error .unsupported) :
     ∃ allowed, valueAllowed m op L Rr = some allowed ∧ outOfOR (valueCmp m op L Rr) ∈ allowed := by
   have hat : ∀ x, atomizeS m x = atomize m x := by intro x; cases x <;> rfl
   have hop : ∀ x, atomizedOperand m [x] = .ok (some (castUAStr (atomize m x))) := by
@@ -370,8 +370,9 @@ theorem value_seq_conforms_partial (m : Mode) (op : Op) (L Rr : List Item) (hm :
   | _ :: _ :: _, [y] => simp [valueAllowed, hm, valueCmp, atomizedOperand, outOfOR]
   | _ :: _ :: _, _ :: _ :: _ => simp [valueAllowed, hm, valueCmp, atomizedOperand, outOfOR]
   | [x], [y] =>
-    obtain ⟨h1, h2, h4, h5, h6, h8, h7⟩ := hpair x y rfl rfl
-    have hc := valuePair_conforms m op _ _ (hcast (atomize m x)) (hcast (atomize m y)) h1 h2 h4 h5 h6 h8
+    obtain ⟨h1, h2, h4, h5, h6, h8, h9, h7⟩ := hpair x y rfl rfl
+    have hc := valuePair_conforms m op _ _ (hcast (atomize m x)) (hcast (atomize m y)) h1 h2 h4 h5 h6
+      (dtConsistent_of_tzOK _ _ h8 h9)
     simp only [valueAllowed, hm, valueCmp, hop, hat, hcs, hc, List.isEmpty_cons, List.length_cons,
       List.length_nil, Bool.or_self, Bool.false_eq_true]
     cases hv : valueOp (binOrdered m) op (castUAStr (atomize m x)) (castUAStr (atomize m y)) with
@@ -471,14 +472,15 @@ theorem value_cmp_order_boolean :
     (by simp [getDouble]) (by simp [getDouble]) rfl rfl]
   simp [valueOp, numRank]
 
-/-- dates, dateTimes, times (same kind; each value carries its local year, local clock reading and an
-optional timezone): the six operators are the order of the *instants* on the UTC timeline (a value
-without timezone is read in the implicit timezone UTC) — for every pair of calendar-consistent
-payloads (`dtFarOK`: the year field agrees with the timeline), whatever the years and whichever of
-the two values has a timezone; dayTimeDurations: order of the seconds.  The order of instants is a
-strict total order with `eq` an equivalence. -/
+/-- dates, dateTimes, times (same kind; each value carries its local clock reading and an optional
+timezone, its `_year` is the calendar year of the local day): the six operators are the order of the
+*instants* on the UTC timeline (a value without timezone is read in the implicit timezone UTC) — for
+every pair of values with timezones within ±14:00, whatever the years and whichever of the two has a
+timezone (the calendar fact behind the "compare year numbers" shortcut is proved: `dtFarOK_of_tzOK`);
+dayTimeDurations: order of the seconds.  The order of instants is a strict total order with `eq` an
+equivalence. -/
 theorem value_cmp_order_temporal :
-    (∀ (m : Mode) (op : Op) (x y : DT), dtFarOK x y = true →
+    (∀ (m : Mode) (op : Op) (x y : DT), x.tzOK = true → y.tzOK = true →
       valuePair m op (.date x) (.date y) =
         .ok (six (fun p q => decide (p < q)) (fun p q => decide (p = q)) op (instant x) (instant y)) ∧
       valuePair m op (.dtm x) (.dtm y) =
@@ -489,7 +491,8 @@ theorem value_cmp_order_temporal :
       valuePair m op (.dtd s) (.dtd t) = .ok (six (fun p q => decide (p < q)) (fun p q => decide (p = q)) op s t)) ∧
     OrderLawsOn (fun _ : Int => True) (fun p q => decide (p < q)) (fun p q => decide (p = q)) := by
   refine ⟨?_, ?_, intLaws⟩
-  · intro m op x y h
+  · intro m op x y hx hy
+    have h := dtFarOK_of_tzOK x y hx hy
     refine ⟨?_, ?_, ?_⟩ <;>
     · rw [valuePair_conforms m op _ _ rfl rfl rfl (by simp [trigPromotion, promRank, numRank])
         (by simp [getDouble]) (by simp [getDouble]) rfl (by simpa [dtConsistent, Atom.isDT, Atom.dt] using h)]
@@ -503,10 +506,10 @@ theorem value_cmp_order_temporal :
 2000-12-31T23:00:00-05:00 (instant 2001-01-01T04:00Z) is *not* before 2001-01-01T01:00:00 (no
 timezone, read as UTC), although its local year is smaller — with none, one or both timezones -/
 example :
-    let a : DT := ⟨2000, 63113900400, some (-300)⟩     -- 2000-12-31T23:00:00-05:00
-    let b : DT := ⟨2001, 63113907600, none⟩            -- 2001-01-01T01:00:00
-    let b' : DT := ⟨2001, 63113907600, some 0⟩         -- 2001-01-01T01:00:00Z
-    dtFarOK a b = true ∧ valuePair .v2 .lt (.dtm a) (.dtm b) = .ok false ∧
+    let a : DT := ⟨63113900400, some (-300)⟩     -- 2000-12-31T23:00:00-05:00
+    let b : DT := ⟨63113907600, none⟩            -- 2001-01-01T01:00:00
+    let b' : DT := ⟨63113907600, some 0⟩         -- 2001-01-01T01:00:00Z
+    a.year = 2000 ∧ b.year = 2001 ∧ valuePair .v2 .lt (.dtm a) (.dtm b) = .ok false ∧
     valuePair .v2 .gt (.dtm a) (.dtm b) = .ok true ∧ valuePair .v2 .lt (.dtm a) (.dtm b') = .ok false ∧
     pairGeneral .v31 .ge (.dtm b) (.dtm a) = .ok false := by decide +kernel
 
@@ -572,8 +575,8 @@ theorem float_promotion_witness :
 
 /-- F07-lenient: `xs:date(..) = 1` is false and `true() = 1.0e0` is true; XPTY0004 by the specification -/
 theorem lenient_witness :
-    pairGeneral .v2 .eq (.date ⟨2000, 5, none⟩) (.int 1) = .ok false ∧ pairSpec .v2 .eq (.date ⟨2000, 5, none⟩) (.int 1) = .error .XPTY0004 ∧
-    trigLenient .v2 .eq (.date ⟨2000, 5, none⟩) (.int 1) = true ∧
+    pairGeneral .v2 .eq (.date ⟨5, none⟩) (.int 1) = .ok false ∧ pairSpec .v2 .eq (.date ⟨5, none⟩) (.int 1) = .error .XPTY0004 ∧
+    trigLenient .v2 .eq (.date ⟨5, none⟩) (.int 1) = true ∧
     pairGeneral .v2 .eq (.bool true) (.dbl (.fin 1)) = .ok true ∧
     pairSpec .v2 .eq (.bool true) (.dbl (.fin 1)) = .error .XPTY0004 ∧
     trigLenient .v2 .eq (.bool true) (.dbl (.fin 1)) = true := by decide +kernel
